@@ -11,12 +11,14 @@ RULE = ("ARGV: commit and tag message templates (from config in TOML and INI, an
         "control values (M0/T0/plainN.txt); the argv lists recorded at the subprocess seam must be equal except that the "
         "control value is replaced by the reference-computed value, as exactly one argument (hg: content of the --logfile). "
         "ARGVREAL: the same against real git objects (commit body, tag contents, files of the commit). "
-        "distinct_nontrivial = distinct (special pieces present, message sources, personality, file names).")
+        "distinct_nontrivial = distinct (special pieces present, message sources, personality, file names)."
+        " COMMITFAIL: after real git refused the commit, the index differs from HEAD in configured paths only, and a commit made after the refusal holds configured files only.")
 ASSUMPTIONS = ["templates contain no braces other than the documented placeholders (bumpver rejects those before anything happens)",
                "config-file messages never begin or end with a quote or blank (stripped by design of the INI syntax; for TOML "
                "this is arguably lossy - candidate F10, outside the generator)",
                "hg is FakeRepo only"]
-COMPONENTS = {"bumpver cli update, vcs.VCSAPI": "real", "git/hg": "FakeRepo at the argv seam (ARGV); real git 2.39 (ARGVREAL)"}
+COMPONENTS = {"bumpver cli update, vcs.VCSAPI": "real", "git/hg": "FakeRepo at the argv seam (ARGV); real git 2.39 (ARGVREAL)",
+              "git (COMMITFAIL)": "real git 2.39 with a real /bin/sh pre-commit hook"}
 CAMPAIGNS = [Argv("C12", quick=10000, thorough=300000), Argv("C12", quick=200, thorough=6000, real=True),
              CommitFail("C12", quick=160, thorough=4000)]
 
